@@ -480,7 +480,10 @@ def declare(r):
     import common
     r.extra["repo_under_test"] = common.REPO
     r.assumptions[:] = [
-        "hand model (Model/Trim.lean) tied to zonal._trim/_crop/trim/crop by the correspondence run only",
+        "model (Model/Trim.lean) tied to zonal._trim/_crop/trim/crop by the generated shapes of Gen/TrimFacts.lean (match "
+        "predicates, scan directions / ranges, early return, wrapper casts and slice; harness/facts_trim.py) and by the "
+        "correspondence run",
+        "cell values and list entries stay within 2^53 (numba compares int64 with float64, and uint64 with int64, in float64)",
         "the model follows the code as repaired by fixes/D5-trim-nan-aware-exclusion.patch and "
         "fixes/D16-trim-crop-empty-window.patch",
         "exclusion / id lists are homogeneous (all ints or all floats) and non-empty: numba rejects the others",
@@ -497,7 +500,11 @@ def run(r, n_override=None):
               "{0,1,2,3,nan,+-inf}; kept/selected cells placed in a target box (touching every subset of the raster "
               "borders), or none, or all, or random; exclusion list/tuple/default, int or float, with and without NaN; "
               "crop values raster same shape (88%) or different; layouts C/F; plus every raster over {nan,0,1} up to "
-              "2x3 (thorough 3x3) x 6 exclusion sets; non-trivial = distinct case whose raster is not constant")
+              "2x3 (thorough 3x3) x 6 exclusion sets; plus the edge stream: every raster dtype f4/f8/i1..u8, listed = anchors "
+              "of the dtype (ids >= 1e5, limits, 2^53, fractions) + foreign entries (nan, +-inf, negative, out of range, "
+              "fractional) + aliases a cast would wrap onto a cell value, decoy cells next to the listed values "
+              "(nextafter, rel 1e-5..1e-9, abs 1e-8..1e-12, +-1), modes box/frame/none/all/random; "
+              "non-trivial = distinct case whose raster is not constant")
     reqs, pend = [], []
     for body in r.corpus():
         case = body["case"]
